@@ -1153,8 +1153,18 @@ func (mpt *MerklePatriciaTrie) MergeDB(ndb NodeDB, root Key, deadNodes []Node) e
 	mpt.mutex.Lock()
 	defer mpt.mutex.Unlock()
 	handler := func(ctx context.Context, key Key, node Node) error {
-		_, _, err := mpt.insertNode(nil, node)
-		return err
+		// A synced node is addressed by the hash of its own content, which includes
+		// the version it was created at: store a copy under that hash and keep its
+		// origin (re-stamping it with this trie's version would store it under a
+		// different key and modify the donor's node).
+		nd := node.CloneNode()
+		ckey := nd.GetHashBytes()
+		if err := mpt.db.PutNode(ckey, nd); err != nil {
+			return err
+		}
+		mpt.cache.Set(string(ckey), nd)
+		mpt.ChangeCollector.AddChange(nil, nd)
+		return nil
 	}
 	mpt.root = root
 	mpt.deleteNodes = append(mpt.deleteNodes, deadNodes...)
